@@ -57,6 +57,49 @@ def run_impl(inputs, contigs, by_barcodes, rel):
         return None, exc_name(e)
 
 
+def recs_of(inputs):
+    """The raw case, as stored in a failure: per input, [rid, tumor, normal, chromosome, start, end, ref, alts] in stream order."""
+    return [[[x.rid, x.tumor, x.normal, x.chromosome, x.start, x.end, x.ref, list(x.alts)] for x in inp] for inp in inputs]
+
+
+def inputs_of(recs):
+    return [[c11.Rec(t, n, c, s, e, rid, ref, tuple(alts)) for (rid, t, n, c, s, e, ref, alts) in inp] for inp in recs]
+
+
+def model_request(inputs, contigs, by_barcodes, rel):
+    flat = [x for inp in inputs for x in inp]
+    return {"op": "overlap.run", "by_barcodes": by_barcodes, "contigs": contigs or [], "allele": rel,
+            "inputs": [[c11.loc_of(r) for r in inp] for inp in inputs],
+            "alleles": [{"ref": x.ref, "alts": list(x.alts)} for x in sorted(flat, key=lambda x: x.rid)]}
+
+
+def eval_case(inputs, contigs, by_barcodes, rel):
+    """One configuration on the implementation + the property's oracle.
+    Returns a dict: where, groups, exc, failures, and (when the oracle ran) pos = positional groups, want = documented result."""
+    groups, exc = run_impl(inputs, contigs, by_barcodes, rel)
+    where = {"inputs": [["%r ref=%s alts=%s" % (x, x.ref, x.alts) for x in inp] for inp in inputs], "relation": rel,
+             "by_barcodes": by_barcodes, "contigs": contigs}
+    res = {"where": where, "groups": groups, "exc": exc, "failures": [], "pos": None, "want": None}
+    stored = dict(where, recs=recs_of(inputs))
+    if exc:
+        res["failures"].append(dict(stored, what="allele-aware iteration failed with %s" % exc, kind="exception"))
+        return res
+    pos, pexc = c11.run_impl(inputs, contigs, by_barcodes)
+    if pexc:
+        res["pexc"] = pexc
+        return res
+    byid = {x.rid: x for inp in inputs for x in inp}
+    want = expected(pos, rel, byid)
+    res["pos"], res["want"] = pos, want
+    if groups != want:
+        res["failures"].append(dict(stored, what="returned groups differ from 'first input partitioned by compatibility, other inputs filtered by the emitted subgroup'",
+                                    kind="groups", expected=want, got=groups))
+    first_ids = [rid for g in groups for rid in g[0]]
+    if sorted(first_ids) != sorted(x.rid for x in inputs[0]):
+        res["failures"].append(dict(stored, what="not every record of the first input is returned exactly once", kind="first-input"))
+    return res
+
+
 def run(ctx):
     out = Outcome()
     out.rule = ("C11's configurations (1-3 inputs, <= 7 intervals, chromosomes, barcode pairs, both grouping modes) with reference alleles from {A, AT} and alternate-allele lists from "
@@ -74,41 +117,53 @@ def run(ctx):
             return r.choice(["A", "A", "AT"]), tuple(r.choice(ALTS))
         inputs = c11.build_inputs(n_inputs, contigs, by_barcodes, items, alleles=alleles)
         rel = rng.choice(RELS)
-        flat = [x for inp in inputs for x in inp]
-        reqs.append({"op": "overlap.run", "by_barcodes": by_barcodes, "contigs": contigs or [], "allele": rel,
-                     "inputs": [[c11.loc_of(r) for r in inp] for inp in inputs],
-                     "alleles": [{"ref": x.ref, "alts": list(x.alts)} for x in sorted(flat, key=lambda x: x.rid)]})
+        reqs.append(model_request(inputs, contigs, by_barcodes, rel))
         meta.append((inputs, contigs, by_barcodes, rel))
     mo = ctx.driver.run(reqs)
     for r, m, (inputs, contigs, by_barcodes, rel) in zip(reqs, mo, meta):
         out.evaluations += 1
-        groups, exc = run_impl(inputs, contigs, by_barcodes, rel)
+        res = eval_case(inputs, contigs, by_barcodes, rel)
+        groups, exc, where = res["groups"], res["exc"], res["where"]
         i = {"groups": groups} if exc is None else {"exc": exc}
-        where = {"inputs": [["%r ref=%s alts=%s" % (x, x.ref, x.alts) for x in inp] for inp in inputs], "relation": rel,
-                 "by_barcodes": by_barcodes, "contigs": contigs}
         if has_unmodelled(m):
             out.unmodelled += 1
         elif m != i:
             out.disagreements.append({"op": "allele.run", "where": where, "model": m, "impl": i})
-        if exc:
-            out.failures.append(dict(where, what="allele-aware iteration failed with %s" % exc, kind="exception"))
+        out.failures += res["failures"]
+        if res["want"] is None:
             continue
-        pos, pexc = c11.run_impl(inputs, contigs, by_barcodes)
-        if pexc:
-            continue
-        byid = {x.rid: x for inp in inputs for x in inp}
-        want = expected(pos, rel, byid)
-        if groups != want:
-            out.failures.append(dict(where, what="returned groups differ from 'first input partitioned by compatibility, other inputs filtered by the emitted subgroup'",
-                                     kind="groups", expected=want, got=groups))
-        first_ids = [rid for g in groups for rid in g[0]]
-        if sorted(first_ids) != sorted(x.rid for x in inputs[0]):
-            out.failures.append(dict(where, what="not every record of the first input is returned exactly once", kind="first-input"))
+        pos, want = res["pos"], res["want"]
         if len(want) != len([g for g in pos if g[0]]) or any(len(a[k]) != len(b[k]) for a in want for b in pos if a[0] and set(a[0]) <= set(b[0]) for k in range(1, len(b))):
             out.nontrivial.add(repr(where))
         if len(out.samples) < 3 and len(want) >= 2:
             out.sample(dict(where, groups=groups))
     return out
+
+
+def replay_case(ctx, failure):
+    """Re-evaluate the stored inputs on the current implementation; the failures they produce now ([] = property holds)."""
+    if "recs" not in failure or "relation" not in failure or "by_barcodes" not in failure:
+        return None
+    inputs = inputs_of(failure["recs"])
+    contigs, by_barcodes, rel = failure.get("contigs"), failure["by_barcodes"], failure["relation"]
+    print("replay C12: LocatableByAlleleOverlapIterator over %d input(s), overlap_type=%s, by_barcodes=%s, contigs=%s" % (len(inputs), rel, by_barcodes, contigs))
+    for k, inp in enumerate(inputs):
+        print("  input %d: %s" % (k, "; ".join("%r ref=%s alts=%s" % (x, x.ref, x.alts) for x in inp) or "(empty)"))
+    res = eval_case(inputs, contigs, by_barcodes, rel)
+    groups, exc = res["groups"], res["exc"]
+    print("  implementation: %s" % ("raised %s" % exc if exc else "groups (record ids per input) %s" % groups))
+    if res["want"] is not None:
+        print("  positional groups (C11 iterator): %s" % res["pos"])
+        print("  documented result from them:      %s" % res["want"])
+    elif not exc:
+        print("  positional iteration failed with %s: nothing to compare with" % res.get("pexc"))
+    if getattr(ctx, "driver_ok", True) and ctx.driver.available():
+        m = ctx.driver.run([model_request(inputs, contigs, by_barcodes, rel)])[0]
+        i = {"groups": groups} if exc is None else {"exc": exc}
+        print("  model: %s (%s)" % (m, "outside the model" if has_unmodelled(m) else "same as the implementation" if m == i else "DIFFERS from the implementation"))
+    for f in res["failures"]:
+        print("  oracle: %s" % f["what"])
+    return res["failures"]
 
 
 def search(ctx):
